@@ -34,12 +34,12 @@ def cases(tier, seed):
     if tier == 'quick':
         base = designs.op_cases([1, 3, 4], ops='w~&|^n+-<>=xcsm', mul_max=0) + designs.op_cases([2], ops='*', mul_max=2)
         base += designs.op_cases([1, 3], ops='w+', dests=('reg',))
-        base += designs.misc_cases() + designs.dup_cases()[:8]
+        base += designs.misc_cases() + designs.dup_cases()[:8] + designs.carg_cases((3,))
         base += designs.expr_cases(25, seed, n=6, maxw=4) + designs.seq_cases()
     else:
         base = designs.op_cases([1, 2, 3, 4, 5, 8], ops='w~&|^n+-<>=xcsm', mul_max=0) + designs.op_cases([1, 2, 3, 4], ops='*', mul_max=4)
         base += designs.op_cases([1, 3, 8], ops='w+-x', dests=('reg',))
-        base += designs.misc_cases() + designs.dup_cases()
+        base += designs.misc_cases() + designs.dup_cases() + designs.carg_cases((1, 3))
         base += designs.expr_cases(150, seed, n=8, maxw=5) + designs.seq_cases(widths=(1, 4, 8))
     struct = ['concat2', 'sel1', 'direct', 'fanout2']
     pairs = [(a, b) for a in struct for b in struct if a != b] + [(g, s) for g in GATE for s in struct]
